@@ -373,6 +373,18 @@ func (c *Concretiser) badBytes(m M) []byte {
 		return pgw.Typed('E', []byte("portal"))
 	case "p":
 		return pgw.Typed('p', []byte("good-without-nul"))
+	case "C":
+		if cls == "short" {
+			return pgw.Typed('C', nil)
+		}
+		return pgw.Typed('C', []byte("Sname-without-nul"))
+	case "f":
+		return pgw.Typed('f', []byte("reason-without-nul"))
+	case "Startup":
+		if cls == "short" {
+			return pgw.Untyped([]byte{0, 3}) // not even a protocol version
+		}
+		return pgw.Untyped(append([]byte{0, 3, 0, 0}, []byte("user-without-nul")...))
 	}
 	return pgw.Typed(ty[0], []byte("junk"))
 }
